@@ -433,6 +433,10 @@ def is_instance(value: Any, type_: Any) -> bool:
     has been called.
     """
 
+    # A NewType stands for the type it wraps
+    if is_new_type(type_):
+        type_ = unwrap_newtype(type_)
+
     # We do not want Python implicit isinstance(True, int) == True
     if type_ is int and (value is True or value is False):
         return False
